@@ -95,6 +95,60 @@ def job(args):
     return out
 
 
+def history_job(args):
+    """a solve from a NON-initial state of the program: model A is solved, then changed (a death process is added with
+    add_event), another live model B of the original definition is solved, then A is solved again through every entry
+    point: the rows must be the solution of the CHANGED model (a stale compiled right-hand side, or recompilation state
+    shared between model objects, would return the old one)"""
+    import copy
+    name, d, theta, x0, t0, seed = args
+    out = {"name": name, "viol": [], "runs": 0, "nontrivial": 0, "skipped": None}
+    pg = env.load_pygom()
+    from pygom.model import ode_utils
+    grid = np.linspace(t0 + 0.5, t0 + 3.0, 6)
+    extra = {"rate": "0.37*%s" % d["states"][0], "trans": [("D", d["states"][0], None, "1")]}
+    d2 = copy.deepcopy(d)
+    d2["events"] = list(d2["events"]) + [extra]
+    try:
+        want_old = detmodels.reference_solution(None, theta, x0, t0, grid, d=d)
+        want = detmodels.reference_solution(None, theta, x0, t0, grid, d=d2)
+        A, _ = build.build(d)
+        A.parameters = list(theta)
+        A.initial_values = (np.array(x0, float), t0)
+        A.integrate(grid)
+        A.integrate2(grid, method="dopri5")
+        _, obj = build.make_event_obj(pg, extra, "event")
+        A.add_event(obj)
+        B, _ = build.build(d)
+        B.parameters = list(theta)
+        B.initial_values = (np.array(x0, float), t0)
+        solB = np.asarray(B.integrate(grid), float)[1:]
+    except Exception as e:
+        out["skipped"] = "history: %s: %s" % (type(e).__name__, e)
+        return out
+    calls = [("integrate", lambda: A.integrate(grid), True, 2e-5), ("solve_determ", lambda: A.solve_determ(grid), True, 2e-5)]
+    for meth in (None, "lsoda", "dopri5"):
+        calls.append(("integrate2(method=%s)" % meth, lambda meth=meth: A.integrate2(grid, method=meth), True, 1e-6))
+        calls.append(("integrateFuncJac(method=%s)" % meth, lambda meth=meth: ode_utils.integrateFuncJac(
+            A.ode_T, A.jacobian_T, np.array(x0, float), t0, grid, method=meth), False, 1e-6))
+    moved = float(np.max(np.abs(want - want_old)))
+    if np.max(np.abs(solB - want_old) - 2e-5 * (1 + np.abs(want_old))) > 0:
+        out["viol"].append({"entry": "integrate", "grid": "history", "what": "other-live-model-not-the-solution", "detail": {"got": solB[-1].tolist(), "want": want_old[-1].tolist()}})
+    for entry, call, origin, tol in calls:
+        out["runs"] += 1
+        try:
+            sol = np.asarray(call(), float)
+            sol = sol[1:] if origin else sol
+            if sol.shape != want.shape or np.max(np.abs(sol - want) - tol * (1 + np.abs(want))) > 0:
+                out["viol"].append({"entry": entry.split("(")[0], "grid": "history", "what": "row-not-the-solution-of-the-changed-model",
+                                    "detail": {"entry": entry, "got": sol[-1].tolist() if sol.ndim == 2 else None, "want": want[-1].tolist(), "old_model": want_old[-1].tolist()}})
+            elif moved > 1e-3:
+                out["nontrivial"] += 1
+        except Exception as e:
+            out["viol"].append({"entry": entry.split("(")[0], "grid": "history", "what": "raised", "detail": {"error": "%s: %s" % (type(e).__name__, e), "entry": entry}})
+    return out
+
+
 def generated_models(k):
     """bounded-rate generated definitions (closed SIRS-like variants)"""
     out = []
@@ -122,6 +176,11 @@ def main(argv=None):
         ns = len(d["states"])
         jobs.append((nme, d, stoch.theta_for(d), [3.0, 1.0, 0.5, 2.0][:ns], 0.5, run.seed))
     res = pool.pmap(job, jobs, chunksize=1)
+    hjobs = [j for j in jobs if j[1]["events"] or True][::1 if not quick else 2]
+    hres = pool.pmap(history_job, hjobs, chunksize=1)
+    run.count("history-leg solves", sum(r["runs"] for r in hres))
+    res = res + hres
+    jobs = jobs + hjobs
     runs = sum(r["runs"] for r in res)
     nt = sum(r["nontrivial"] for r in res)
     for r, j in zip(res, jobs):
@@ -138,7 +197,9 @@ def main(argv=None):
         "rule": "%d model/parameter/initial-time configurations (catalogue %s + generated bounded-rate models; t0 in {0, 0.5}) x grids %s x "
                 "{integrate, solve_determ, integrate2(method), integrateFuncJac(method, includeOrigin)} x methods %s x full_output: every "
                 "combination executed; shape, first row, and every row within 1e-6(1+|x|) (2e-5 for the odeint based entries) of the closed "
-                "form or of DOP853(1e-12) on the reference right-hand side. non-trivial = consecutive reference rows differ by > 1e-3" % (
+                "form or of DOP853(1e-12) on the reference right-hand side. history leg: solve A, add a death process to A with add_event, "
+                "solve another live model B, solve A again through every entry point: rows must be the solution of the CHANGED model. "
+                "non-trivial = consecutive reference rows differ by > 1e-3" % (
                     len(jobs), names, list(GRIDS), METHODS),
         "exhaustive": True,
     })
